@@ -122,6 +122,19 @@ def effective_policy(t, path, root_policy):
     return pol
 
 
+def ints_tree():
+    """the Int option -n is multi-valued (IntsOpt) here: every written value must convert, padded numerals do not"""
+    nodes = [node(["app"], "app", g.Seq(g.Rep(g.Optional(NN)), g.Optional(X)), subs=[1]),
+             node(["c1"], "app c1", g.Seq(g.Rep(g.Optional(NN))))]
+    for n in nodes:
+        n["intmulti"] = True
+    vectors = []
+    for base in ([], ["c1"]):
+        for tail in (["-n=7"], ["-n= 7"], ["-n=7 "], ["-n=7", "-n=\t12"], ["-n=12", "-n=7"], ["-n", "7"], ["-n", " 7"], ["-n=zz"], ["-n=7", "-n=zz"], ["-n= "]):
+            vectors.append(base + tail)
+    return {"version": "", "nodes": nodes, "vectors": vectors}
+
+
 def late_tree():
     """declaration-free commands; `late` is added to the application after earlier runs"""
     BARE = {"opts": [], "args": []}
@@ -233,7 +246,7 @@ def harness_case(t, policy, argv, prerun=()):
     nodes = []
     for n in t["nodes"]:
         nodes.append({"names": n["names"], "path": n["path"], "spec": n["spec"], "opts": [o for o in n["prog"]["opts"] if o["flag"]], "intopt": "n",
-                      "args": ["X"], "subs": n["subs"], "action": n["action"], "bare": n.get("bare", False), "hidden": n.get("hidden", False), "policy": n.get("policy", ""), "late": n.get("late", False)})
+                      "args": ["X"], "subs": n["subs"], "action": n["action"], "bare": n.get("bare", False), "hidden": n.get("hidden", False), "policy": n.get("policy", ""), "late": n.get("late", False), "intmulti": n.get("intmulti", False)})
     return {"nodes": nodes, "version": t["version"], "policy": policy, "argv": argv, "prerun": [list(p) for p in prerun]}
 
 
